@@ -85,6 +85,9 @@ type World struct {
 	enc       *sm.Enc
 	mparks    map[string]chan chan struct{} // parked Marshal of invp operations
 	parkAt    map[string]bool               // operations that park after newStream's hand-off
+	mgrArm    bool                          // mgrpark: see the point hook
+	mgrSets   int
+	mgrOp     string
 	hid       int
 	Failed    string
 	last      Obs
@@ -244,6 +247,22 @@ func NewWorld(cfg Config) *World {
 	w.P.Flow = true
 	// operations named by hpark!op park at the scheduling point after newStream's hand-off
 	drpcdebug.SetPointHook(w.D.PointHook(func(op, point string) bool {
+		if point == "signal.setSlow.enter" {
+			// mgrpark: the manageStream goroutine parks inside checkFinished after the stream's fin
+			// signal is set and before its token is sent (the second signal set of checkFinished)
+			w.mu.Lock()
+			defer w.mu.Unlock()
+			if !w.mgrArm || !stackHas("drpcmanager.(*Manager).manageStream", "drpcstream.(*Stream).checkFinished") {
+				return false
+			}
+			w.mgrSets++
+			if w.mgrSets == 2 {
+				w.mgrArm = false
+				w.mgrOp = op
+				return true
+			}
+			return false
+		}
 		if point != "manager.newStream.handoff" {
 			return false
 		}
@@ -406,11 +425,25 @@ func (w *World) Do(act string) string {
 		}
 		w.parkAt[f[1]] = true
 		w.mu.Unlock()
-	case "prel": // prel!op : let it run on
+	case "prel": // prel!op : let it run on (prel!@mgr: the goroutine parked by mgrpark)
 		w.mu.Lock()
 		delete(w.parkAt, f[1])
+		name := f[1]
+		if name == "@mgr" {
+			name = w.mgrOp
+		}
 		w.mu.Unlock()
-		w.D.ReleasePoint(f[1])
+		w.D.ReleasePoint(name)
+	case "mgrpark": // the client's manageStream goroutine will park between finishing a stream and sending its token
+		w.mu.Lock()
+		w.mgrArm, w.mgrSets = true, 0
+		w.mu.Unlock()
+	case "raw": // raw!op!<hex> : the peer writes these bytes to the client (a packet no server would send now)
+		b := unhexBytes(f[2])
+		w.issue(f[1], func() string {
+			_, err := w.B.Write(b)
+			return errName(err)
+		})
 	case "invf": // invf!op!idx!prog!len!ctx : as inv, but Marshal of the request fails
 		idx, l, cid := atoi(f[2]), atoi(f[4]), atoi(f[5])
 		ctx := w.ctx(cid)
@@ -556,6 +589,35 @@ func (w *World) stream(idx int) drpc.Stream {
 func (w *World) issue(name string, f func() string) {
 	w.issued = append(w.issued, name)
 	w.D.Go(name, f)
+}
+
+func unhexBytes(s string) []byte {
+	b := make([]byte, len(s)/2)
+	for i := range b {
+		v, _ := strconv.ParseUint(s[2*i:2*i+2], 16, 8)
+		b[i] = byte(v)
+	}
+	return b
+}
+
+// stackHas reports whether every given function is on the calling goroutine's stack.
+func stackHas(fns ...string) bool {
+	var pcs [48]uintptr
+	n := runtime.Callers(2, pcs[:])
+	frames := runtime.CallersFrames(pcs[:n])
+	found := map[string]bool{}
+	for {
+		fr, more := frames.Next()
+		for _, f := range fns {
+			if strings.HasSuffix(fr.Function, f) {
+				found[f] = true
+			}
+		}
+		if !more {
+			break
+		}
+	}
+	return len(found) == len(fns)
 }
 
 func closedCh(ch <-chan struct{}) bool {
